@@ -113,7 +113,7 @@ func eval(k Case) *engine.Failure {
 var handSeeds = []string{
 	"x := [1, 2, 3]", "x := {\"a\": 1}", "y := [v*v for v <- x if v > 1]", "z := {k: v for k, v <- m}", "b := {for v <- x if v > 2}",
 	"v, ok := {v for v <- x if v > 2}", "for i <- 0:10:2 {\n}", "for i, v <- x {\n}", "for v <- x if v > 1 {\n}", "a <- 1, 2", "a <- b...",
-	"echo \"hi\", 1", "println [1, 2; 3, 4]", "f x => x * 2", "f (x, y) => {\n\treturn x\n}", "f => 1", "x := f()!", "y := f()?", "z := f()?:1",
+	"echo \"hi\", 1", "println [1, 2; 3, 4]", "f x => x * 2", "f (x, y) => {\n\treturn x\n}", "f => 1", "f => {\nL:\n\tfor {\n\t\tbreak L\n\t}\n}", "x := f()!", "y := f()?", "z := f()?:1",
 	"n := 1r + 2.5r", "d := 3ms", "s := \"a${b}c$$\"", "e := ${HOME}", "t := x -> y", "u := x <> y", "func (p *T) m(a int) (r int, err error) {\n}",
 	"func f[T any](x T) T {\n\treturn x\n}", "type T struct {\n\tA int `json:\"a\"`\n\t*B\n}", "type I interface {\n\tm() int\n\tE\n}", "var (\n\ta = 1\n\tb, c int\n)",
 	"const (\n\tx = iota\n\ty\n)", "import \"fmt\"", "import (\n\tf \"fmt\"\n\t_ \"os\"\n)", "package p\n", "switch x := y.(type) {\ncase int:\ndefault:\n}",
